@@ -73,6 +73,18 @@ def run(ctx):
             _one(ctx, g, corr)
         except DeclarationError:
             ctx.count("generator_declaration_rejected")
+    # wrongly-typed arguments of make_required are refused with DeclarationError
+    for bad_schema, bad_keys in ((schema.int, None), (schema.list, ["a"]), ("not a schema", None), (schema.dict({"a": schema.int}), "a"),
+                                 (schema.dict({"a": schema.int}), 5), (schema.dict({"a": schema.int}), {"a": 1})):
+        ctx.count("make_required_bad_args")
+        try:
+            make_required(bad_schema, bad_keys)
+            if not (isinstance(bad_keys, dict)):
+                ctx.violation("make_required accepted wrongly-typed arguments", schema=repr(bad_schema), keys=repr(bad_keys))
+        except DeclarationError:
+            pass
+        except Exception as e:  # noqa: BLE001
+            ctx.violation("make_required raised %s, not DeclarationError" % type(e).__name__, schema=repr(bad_schema), keys=repr(bad_keys))
     _finish(ctx, reqs, exp, info)
 
 
